@@ -461,3 +461,32 @@ func Main(checks map[string]func(*Run)) {
 	f(r)
 	r.Finish()
 }
+
+// AdoptReplaySeed makes the run use the seed and tier recorded in the replay
+// file given with -replay (checks whose case generation is a pure function of
+// the seed replay a witness by regenerating the run that produced it).
+func (r *Run) AdoptReplaySeed() bool {
+	if r.replayPath == "" {
+		return false
+	}
+	b, err := os.ReadFile(r.replayPath)
+	if err != nil {
+		fmt.Printf("replay: cannot read %s: %v\n", r.replayPath, err)
+		return false
+	}
+	var w struct {
+		Seed int64  `json:"seed"`
+		Tier string `json:"tier"`
+		Key  string `json:"key"`
+	}
+	if err := json.Unmarshal(b, &w); err != nil {
+		fmt.Printf("replay: %s is not a witness file: %v\n", r.replayPath, err)
+		return false
+	}
+	r.Seed = w.Seed
+	if w.Tier == "thorough" || w.Tier == "quick" {
+		r.Tier = w.Tier
+	}
+	fmt.Printf("replay: regenerating the run of seed %d tier %s that produced %s (key %s)\n", r.Seed, r.Tier, r.replayPath, w.Key)
+	return true
+}
